@@ -240,7 +240,7 @@ def thdm_gauge(draw, lam=2.0, tb=(0.3, 50.0), types=(1, 2, 3, 4, 5, 6), vary_sm=
     return p
 
 
-def lambdas_from_mass(p, v):
+def lambdas_from_mass(p, v, sq=None):
     """lambda_1..5 of the mass-basis point p (documented relations between the bases; used for *generation*
     of gauge-basis points that are free of tachyons, not as an oracle)"""
     sba, tb = p["sba"], p["tb"]
@@ -249,14 +249,17 @@ def lambdas_from_mass(p, v):
     sb, cb = tb / rtb, 1 / rtb
     alpha = -math.asin(sba) + math.atan(tb)
     sa, ca = math.sin(alpha), math.cos(alpha)
-    mh, mH, mA, mHp = p["mh"], p["mH"], p["mA"], p["mHp"]
+    sq = sq or {}
+    # the relations are linear in the squared masses: a negative entry of `sq` (name -> squared mass) continues them
+    # to a tachyonic state of that name
+    mh2, mH2, mA2, mHp2 = (sq.get(k, p[k] ** 2) for k in ("mh", "mH", "mA", "mHp"))
     l6, l7, m12 = p["lambda6"], p["lambda7"], p["m122"]
     v2 = v * v
-    l1 = ((mH * ca) ** 2 + (mh * sa) ** 2 - m12 * tb) / (v2 * cb * cb) + 0.5 * tb * (l7 * tb * tb - 3 * l6)
-    l2 = ((mH * sa) ** 2 + (mh * ca) ** 2 - m12 * ctb) / (v2 * sb * sb) + 0.5 * ctb * (l6 * ctb * ctb - 3 * l7)
-    l3 = ((mH ** 2 - mh ** 2) * ca * sa + 2 * mHp ** 2 * sb * cb - m12) / (v2 * sb * cb) - 0.5 * l6 * ctb - 0.5 * l7 * tb
-    l4 = ((mA ** 2 - 2 * mHp ** 2) * cb * sb + m12) / (v2 * sb * cb) - 0.5 * l6 * ctb - 0.5 * l7 * tb
-    l5 = (m12 / (sb * cb) - mA ** 2) / v2 - 0.5 * l6 * ctb - 0.5 * l7 * tb
+    l1 = (mH2 * ca ** 2 + mh2 * sa ** 2 - m12 * tb) / (v2 * cb * cb) + 0.5 * tb * (l7 * tb * tb - 3 * l6)
+    l2 = (mH2 * sa ** 2 + mh2 * ca ** 2 - m12 * ctb) / (v2 * sb * sb) + 0.5 * ctb * (l6 * ctb * ctb - 3 * l7)
+    l3 = ((mH2 - mh2) * ca * sa + 2 * mHp2 * sb * cb - m12) / (v2 * sb * cb) - 0.5 * l6 * ctb - 0.5 * l7 * tb
+    l4 = ((mA2 - 2 * mHp2) * cb * sb + m12) / (v2 * sb * cb) - 0.5 * l6 * ctb - 0.5 * l7 * tb
+    l5 = (m12 / (sb * cb) - mA2) / v2 - 0.5 * l6 * ctb - 0.5 * l7 * tb
     return [l1, l2, l3, l4, l5, l6, l7]
 
 
